@@ -220,6 +220,200 @@ def ends(sched: List[bool]) -> bool:
         return not problems
 
 
+def _cmds(sock):
+    try:
+        return [(h["command"], h["flags"] >= 128, h["hbh"], h["e2e"]) for h, _ in ref_decode_msgs(b"".join(sock.sent))]
+    except Exception:
+        return []
+
+
+def life(sched: List[bool]) -> bool:
+    """
+    pre: len(sched) == P["K"]
+    post: _
+    """
+    # the whole life of a node object, from the REAL Diameter.start() (association, state machine and transport objects and
+    # their threads are created by the code under test) to the end of the connection, then start() again on the same object
+    from vf import cosched as CS
+    from vf.conode import CoBoot, CoTime
+    from crosshair.core import IgnoreAttempt
+    from bromelia.config import CLOSED
+    with untraced():
+        role, scen = P["role"], P["scen"]
+        s = CS.Sched(sched, max_preempt=P.get("maxp"), delays=P.get("delays"))
+        refused = scen == "refused"
+        boot = CoBoot(role, s, lines=P.get("lines", False), points=("send",),
+                      connect_results=[P.get("connect", 115), 115], send_plans=[["refused", "pipe"] if refused else [], []])
+        CoTime.polite = P.get("delays") is not None
+        info, got = {}, []
+
+        def starter(tag):
+            try:
+                r = boot.d.start()
+                if hasattr(r, "send"):
+                    yield from r
+                info[tag] = "returned"
+            except (LIB + (Exception,)) as e:
+                import traceback
+                info[tag] = f"raised {type(e).__name__}: {e}"
+                if REPLAY: info[tag + "_tb"] = "".join(traceback.format_tb(e.__traceback__)[-3:])[-600:]
+
+        def consumer():
+            yield (lambda: boot.assoc is not None)
+            m = yield from boot.d.get_message()
+            got.append("msg" if m is not None else "none")
+
+        def closer():
+            yield (lambda: boot.state() in ("I-Open", "R-Open"))
+            yield
+            r = boot.d.close()
+            if hasattr(r, "send"):
+                yield from r
+
+        def handshake(sock):
+            """peer side of the capabilities exchange on `sock`"""
+            if role == "CLIENT":
+                yield (lambda: any(c == 257 and r for c, r, _, _ in _cmds(sock)) or sock.closed)
+                if sock.closed:
+                    return False
+                cer = [x for x in _cmds(sock) if x[0] == 257 and x[1]][0]
+                cea = build("cea_ok")
+                cea.header.hop_by_hop, cea.header.end_to_end = cer[2].to_bytes(4, "big"), cer[3].to_bytes(4, "big")
+                sock.inbox.append(cea.dump())
+            else:
+                sock.inbox.append(_ids(build("cer_ok"), 1).dump())
+                yield (lambda: any(c == 257 and not r for c, r, _, _ in _cmds(sock)) or sock.closed)
+            return not sock.closed
+
+        def peer():
+            if refused:
+                return
+            if role == "CLIENT":
+                yield (lambda: boot.sock is not None)
+                sock = boot.sock
+            else:
+                yield (lambda: bool(boot.listeners))
+                yield
+                sock = boot.connect()
+            ok = yield from handshake(sock)
+            if not ok:
+                return
+            if scen != "local_close":            # (the peer of a local close only reacts to the DPR, whenever it comes)
+                yield (lambda: boot.state() in ("I-Open", "R-Open"))
+            if scen == "peer_dpr":
+                yield
+                sock.inbox.append(_ids(build("dpr_ok"), 9).dump())
+                yield (lambda: any(c == 282 and not r for c, r, _, _ in _cmds(sock)) or sock.closed)
+                sock.peer_closed = True
+            elif scen == "peer_disc":
+                yield
+                sock.peer_closed = True
+            elif scen == "peer_reset":
+                yield
+                sock.recv_error = True
+            elif scen == "local_close":
+                yield (lambda: any(c == 282 and r for c, r, _, _ in _cmds(sock)) or sock.closed)
+                if sock.closed:
+                    return
+                dpr = [x for x in _cmds(sock) if x[0] == 282 and x[1]][0]
+                dpa = build("dpa")
+                dpa.header.hop_by_hop, dpa.header.end_to_end = dpr[2].to_bytes(4, "big"), dpr[3].to_bytes(4, "big")
+                sock.inbox.append(dpa.dump())
+                yield (lambda: sock.closed)
+
+        def finisher():
+            yield CS.Timed(lambda: False)
+
+        s.spawn("F", finisher())
+        s.lazy.add("F")
+        s.spawn("M", starter("first"), daemon=True)          # the application thread calling start()
+        if P.get("consumer"):
+            s.spawn("A", consumer())
+        if scen == "local_close":
+            s.spawn("C", closer())
+        s.spawn("N", peer(), daemon=True)
+        problems = []
+        try:
+            s.run()
+        except CS.Prune:
+            raise IgnoreAttempt("schedule bound")
+        except CS.Deadlock as d:
+            problems.append(f"never returns: {d.who}")
+        except (LIB + (Exception,)) as e:
+            problems.append(f"raised {type(e).__name__}: {e}")
+        reached()
+        a, t, sock = boot.assoc, boot.transport, boot.sock
+        if not problems:
+            if "first" not in info:
+                problems.append("start() never returned")
+            if boot.state() != CLOSED:
+                problems.append(f"state {boot.state()}")
+            for name in boot.threads:
+                if name not in s.finished:
+                    problems.append(f"thread {name} still running")
+            for k, so in enumerate(boot.socks + boot.listeners):
+                if not so.closed:
+                    problems.append(f"socket {k} not closed")
+            for sel in boot.selectors:
+                if sel.reg:
+                    problems.append("a socket is still registered with its selector")
+            if a is not None and a.transport is not None:
+                problems.append("association keeps the transport")
+            if a is not None and (a.lock.locked() or a.postprocess_recv_messages_lock.locked()):
+                problems.append("association lock held")
+            if P.get("consumer") and not got:
+                problems.append("consumer still blocked")
+        first_threads = list(boot.threads)
+        if not problems:
+            # the same node object is started again: the REAL start(), a fresh connection that succeeds, CER/CEA, DWR/DWA
+            n_socks = len(boot.socks)
+            s2 = CS.Sched([True] * 96)
+            boot.sched = s2
+            done = []
+
+            def peer2():
+                if role == "CLIENT":
+                    yield (lambda: len(boot.socks) > n_socks)
+                    so = boot.socks[-1]
+                else:
+                    yield (lambda: len(boot.listeners) > 1)
+                    so = boot.connect()
+                ok = yield from handshake(so)
+                if not ok:
+                    done.append("handshake failed")
+                    return
+                yield (lambda: boot.state() in ("I-Open", "R-Open"))
+                so.inbox.append(_ids(build("dwr_ok"), 77).dump())
+                yield (lambda: any(c == 280 and not r for c, r, _, _ in _cmds(so)))
+                done.append("ok")
+            s2.spawn("N", peer2())
+            s2.spawn("M", starter("second"), daemon=True)
+            try:
+                s2.run()
+            except (CS.Deadlock, CS.Prune) as e:
+                problems.append(f"restarted node did not complete CER/CEA + DWR/DWA: {e} (start(): {info.get('second')})")
+            except (LIB + (Exception,)) as e:
+                problems.append(f"restart raised {type(e).__name__}: {e}")
+            if not problems and done != ["ok"]:
+                problems.append(f"restart: {done}, start(): {info.get('second')}")
+        boot.restore()
+        if REPLAY: note(problems=problems, start=info, consumer=got, threads=first_threads, threads_ended_by_exception=boot.crashed,
+                        schedule="".join(x[0] for x in s.trace)[-200:], sent=[[(c, r) for c, r, _, _ in _cmds(so)] for so in boot.socks])
+        return not problems
+
+
+LIFE = [
+    ("life/client/refused-async", {"role": "CLIENT", "scen": "refused", "connect": 115}),
+    ("life/client/refused-sync", {"role": "CLIENT", "scen": "refused", "connect": 111}),
+    ("life/client/peer_dpr/consumer", {"role": "CLIENT", "scen": "peer_dpr", "consumer": True}),
+    ("life/client/local_close", {"role": "CLIENT", "scen": "local_close"}),
+    ("life/client/peer_reset", {"role": "CLIENT", "scen": "peer_reset"}),
+    ("life/server/peer_disc/consumer", {"role": "SERVER", "scen": "peer_disc", "consumer": True}),
+    ("life/server/local_close", {"role": "SERVER", "scen": "local_close"}),
+    ("life/server/peer_dpr", {"role": "SERVER", "scen": "peer_dpr"}),
+]
+
+
 GRID = [
     # name, params
     ("open/local_close", {"role": "CLIENT", "cause": "local_close"}),
@@ -244,10 +438,10 @@ def queries(tier, seed):
     t = 480 if tier == "quick" else 2400
     qs = []
 
-    def add(name, params, extra, what):
+    def add(name, params, extra, what, fn="ends"):
         p = dict(params)
         p.update(extra)
-        qs.append(Q(name, "ends", p, cto=t, pto=t, what=f"{params}: {what}"))
+        qs.append(Q(name, fn, p, cto=t, pto=t, what=f"{params}: {what}"))
     D = 4 if tier == "quick" else 7
     for name, params in GRID:
         dd = D - 1 if "queued" in name else D
@@ -257,13 +451,21 @@ def queries(tier, seed):
         d = 2 if tier == "quick" else 3
         add(f"{name}/lines/D{d}", params, {"K": 200, "delays": d, "lines": TEARDOWN},
             f"<= {d} delays with a preemption point before every statement of the teardown / hand-over methods")
+    LD = 2 if tier == "quick" else 4
+    for name, params in LIFE:
+        add(f"{name}/ops/D{LD}", params, {"K": 128, "delays": LD},
+            f"from the real Diameter.start() to the end of the connection and a real second start() (CER/CEA, DWR/DWA): round-robin scheduler with <= {LD} delays", fn="life")
     if tier != "quick":
         for name, params in (GRID[4], GRID[7]):
             add(f"{name}/ops/P1", params, {"K": 64, "maxp": 1}, "preemption-bounded: every schedule with <= 1 preemption (free choice at every blocking point)")
     return qs
 
 
-BOUNDS = ["termination causes: local close (DPR answered), local close with the peer dropping instead of answering, DPR from the peer, peer disconnect, peer reset, refused connection",
+BOUNDS = ["life/* queries: the node object is driven from the REAL Diameter.start() (PeerStateMachine.start, DiameterAssociation.start, TcpClient/TcpServer.start and run, every "
+          "Thread(...).start() in them) on stand-in socket.socket / DefaultSelector / Thread; connect_ex() returns EINPROGRESS or ECONNREFUSED (refused synchronously / "
+          "asynchronously), the server accepts one inbound connection; endings: refused, DPR from the peer, peer disconnect, peer reset, local close answered by a DPA; "
+          "then the REAL start() again on the same object with a connection that succeeds: CER/CEA and a DWR/DWA must complete; delay-bounded schedules (<= 2 quick / 4 thorough delays)",
+          "termination causes: local close (DPR answered), local close with the peer dropping instead of answering, DPR from the peer, peer disconnect, peer reset, refused connection",
           "points in life: Open idle / with a parsed inbound request / with a queued outbound request / with a consumer blocked in get_message; client Wait-Conn-Ack and Wait-I-CEA; server Closed with an accepted connection",
           "schedules: delay-bounded exploration (deterministic round-robin over transport, receive worker, state machine, consumer, closer, peer; every step may be "
           "delayed by a solver-chosen boolean) with <= 4 (quick) / 7 (thorough) delays at synchronisation-operation granularity and <= 2 / 3 delays with a preemption "
